@@ -66,11 +66,12 @@ func Dump(p *an.Prog, spec string) {
 // ---------------------------------------------------------------------------
 
 type Mutant struct {
-	Name     string
-	Property string
-	File     string // relative to repo
-	Old, New string // textual patch; Old must occur exactly once
-	Expect   string // rule prefix that must report a violation/undecided
+	Name       string
+	Property   string
+	File       string // relative to repo
+	Old, New   string // textual patch; Old must occur exactly once
+	Old2, New2 string // optional second hunk in the same file (e.g. an import)
+	Expect     string // rule prefix that must report a violation/undecided
 }
 
 var Mutants []Mutant
@@ -93,7 +94,14 @@ func ApplyMutant(repo string, m Mutant) (map[string][]byte, bool) {
 	if bytes.Count(src, []byte(m.Old)) != 1 {
 		return nil, false
 	}
-	return map[string][]byte{path: bytes.Replace(src, []byte(m.Old), []byte(m.New), 1)}, true
+	out := bytes.Replace(src, []byte(m.Old), []byte(m.New), 1)
+	if m.Old2 != "" {
+		if bytes.Count(out, []byte(m.Old2)) != 1 {
+			return nil, false
+		}
+		out = bytes.Replace(out, []byte(m.Old2), []byte(m.New2), 1)
+	}
+	return map[string][]byte{path: out}, true
 }
 
 func FindMutant(name string) (Mutant, bool) {
